@@ -86,3 +86,7 @@ W int v_pthread_mutex_init(pthread_mutex_t *m, const pthread_mutexattr_t *a) { r
 W int v_pthread_mutex_lock(pthread_mutex_t *m) { return pthread_mutex_lock(m); }
 W int v_pthread_mutex_unlock(pthread_mutex_t *m) { return pthread_mutex_unlock(m); }
 W int v_pthread_atfork(void (*a)(void), void (*b)(void), void (*c)(void)) { return pthread_atfork(a, b, c); }
+W size_t v_strspn(const char *a, const char *b) { return strspn(a, b); }
+W size_t v_strcspn(const char *a, const char *b) { return strcspn(a, b); }
+W char *v_strpbrk(const char *a, const char *b) { return strpbrk(a, b); }
+W char *v_strsep(char **a, const char *b) { return strsep(a, b); }
